@@ -18,7 +18,7 @@ use crate::{Ansi256Color, AnsiColor, Color, Effects, Reset, RgbColor, Style};
 use core::fmt::Write as _;
 
 /// 2. each of the twelve escapes is one SGR sequence that sets exactly its own effect (additive reading)
-#[cfg_attr(kani, kani::proof, kani::unwind(10))]
+#[cfg_attr(kani, kani::proof, kani::unwind(16))]
 #[cfg_attr(not(kani), test)]
 fn render_effect_escapes() {
     let mut i = 0;
@@ -33,40 +33,128 @@ fn render_effect_escapes() {
     }
 }
 
+/// records the slices handed to write_all (no copying: symbolic-index buffer writes are what made
+/// the byte-comparing version of this harness run out of memory)
+struct CallRec {
+    calls: usize,
+    ptr: [usize; 16],
+    len: [usize; 16],
+}
+
+impl std::io::Write for CallRec {
+    fn write(&mut self, buf: &[u8]) -> std::io::Result<usize> {
+        Ok(buf.len())
+    }
+    fn write_all(&mut self, buf: &[u8]) -> std::io::Result<()> {
+        if self.calls < 16 {
+            self.ptr[self.calls] = buf.as_ptr() as usize;
+            self.len[self.calls] = buf.len();
+        }
+        self.calls += 1;
+        Ok(())
+    }
+    fn flush(&mut self) -> std::io::Result<()> {
+        Ok(())
+    }
+}
+
 /// 3a. Effects::write_to writes the members' escapes in declaration order, nothing else (all 4096 sets)
-#[cfg_attr(kani, kani::proof, kani::unwind(61))]
+#[cfg_attr(kani, kani::proof, kani::unwind(14))]
 #[cfg_attr(not(kani), test)]
 fn render_effects_concat() {
     let (e, bits) = any_effects();
-    let mut out: Buf<60> = Buf::new();
-    let r = Style::new().effects(e).write_to(&mut out);
-    assert!(r.is_ok() && !out.overflow, "effects render into at most 55 bytes");
-    let mut want: Buf<60> = Buf::new();
+    let mut w = CallRec { calls: 0, ptr: [0; 16], len: [0; 16] };
+    let r = e.write_to(&mut w);
+    assert!(r.is_ok(), "writing effects to a good writer succeeds");
+    let mut k = 0;
     let mut i = 0;
     while i < 12 {
         if bits & (1 << i) != 0 {
-            let _ = Style::new().effects(ALL[i]).write_to(&mut want);
+            let esc = crate::effect::METADATA[i].escape;
+            assert!(k < w.calls && w.ptr[k] == esc.as_ptr() as usize && w.len[k] == esc.len(), "a set of effects renders as the escapes of its members in declaration order");
+            k += 1;
         }
         i += 1;
     }
-    assert!(out.same(&want), "a set of effects renders as the escapes of its members in declaration order");
+    assert!(k == w.calls, "nothing but the members' escapes is written");
     vk::vk_cover!(bits == 4095, "all effects");
 }
 
-/// 3b. Style::write_to == effects ++ fg ++ bg ++ underline, for every style
-#[cfg_attr(kani, kani::proof, kani::unwind(116))]
-#[cfg_attr(not(kani), test)]
+// 3b. Style::write_to against its callees' contracts: the four part writers are replaced by recorders
+static mut PARTS: [(u8, u16, Option<Color>); 6] = [(0, 0, None); 6];
+static mut PARTS_N: usize = 0;
+static mut FAIL_AT: usize = 99;
+
+fn record(kind: u8, bits: u16, c: Option<Color>) -> std::io::Result<()> {
+    unsafe {
+        let i = PARTS_N;
+        if i < 6 {
+            PARTS[i] = (kind, bits, c);
+        }
+        PARTS_N += 1;
+        if i == FAIL_AT {
+            return Err(std::io::ErrorKind::Other.into());
+        }
+    }
+    Ok(())
+}
+
+fn stub_effects_write_to(e: Effects, _w: &mut dyn std::io::Write) -> std::io::Result<()> {
+    record(0, bits_of(e), None)
+}
+fn stub_fg(c: Color, _w: &mut dyn std::io::Write) -> std::io::Result<()> {
+    record(1, 0, Some(c))
+}
+fn stub_bg(c: Color, _w: &mut dyn std::io::Write) -> std::io::Result<()> {
+    record(2, 0, Some(c))
+}
+fn stub_ul(c: Color, _w: &mut dyn std::io::Write) -> std::io::Result<()> {
+    record(3, 0, Some(c))
+}
+
+/// Style::write_to == effects, then fg, bg, underline colour (each only if set), stopping at the
+/// first error — for every style (modular: the part writers are verified in 1., 2., 3a.)
+#[cfg_attr(kani, kani::proof, kani::unwind(14),
+    kani::stub(crate::Effects::write_to, stub_effects_write_to),
+    kani::stub(crate::Color::write_fg_to, stub_fg),
+    kani::stub(crate::Color::write_bg_to, stub_bg),
+    kani::stub(crate::Color::write_underline_to, stub_ul))]
 fn render_style_concat() {
     let s = any_style();
-    let mut out: Buf<114> = Buf::new();
-    let r = s.write_to(&mut out);
-    assert!(r.is_ok() && !out.overflow, "a style renders into at most 112 bytes");
-    let mut want: Buf<114> = Buf::new();
-    let _ = Style::new().effects(s.get_effects()).write_to(&mut want);
-    let _ = Style::new().fg_color(s.get_fg_color()).write_to(&mut want);
-    let _ = Style::new().bg_color(s.get_bg_color()).write_to(&mut want);
-    let _ = Style::new().underline_color(s.get_underline_color()).write_to(&mut want);
-    assert!(out.same(&want), "a style renders as effects, foreground, background, underline colour, in that order");
+    let fail_at = vk::any_usize_in(0, 5);
+    unsafe {
+        FAIL_AT = fail_at;
+    }
+    let mut sink: Buf<4> = Buf::new();
+    let r = s.write_to(&mut sink);
+    let mut want: [(u8, u16, Option<Color>); 4] = [(9, 0, None); 4];
+    let mut n = 0;
+    want[n] = (0, bits_of(s.get_effects()), None);
+    n += 1;
+    if let Some(c) = s.get_fg_color() {
+        want[n] = (1, 0, Some(c));
+        n += 1;
+    }
+    if let Some(c) = s.get_bg_color() {
+        want[n] = (2, 0, Some(c));
+        n += 1;
+    }
+    if let Some(c) = s.get_underline_color() {
+        want[n] = (3, 0, Some(c));
+        n += 1;
+    }
+    let done = unsafe { PARTS_N };
+    let expect_done = if fail_at < n { fail_at + 1 } else { n };
+    assert!(done == expect_done, "a style writes effects, foreground, background, underline colour — each set part once, stopping at the first error");
+    let mut i = 0;
+    while i < 4 {
+        if i < done {
+            assert!(unsafe { PARTS[i] } == want[i], "a style renders as effects, foreground, background, underline colour, in that order");
+        }
+        i += 1;
+    }
+    assert!(r.is_err() == (fail_at < n), "an inner error surfaces from Style::write_to and is never turned into success");
+    vk::vk_cover!(n == 4 && r.is_ok(), "all four parts");
 }
 
 /// reset form through the io::Write path: empty iff plain, otherwise restores the default state (every style)
@@ -135,7 +223,7 @@ display_eq!(render_display_eq_s3, 3);
 display_eq!(render_display_eq_s4, 4);
 
 macro_rules! flag_harness {
-    ($name:ident, $fmt:literal, $base:literal, $k:expr) => {
+    ($name:ident, $fmt:literal, $base:literal, $k:expr, $msg:literal) => {
         #[cfg_attr(kani, kani::proof, kani::unwind(50))]
         #[cfg_attr(not(kani), test)]
         fn $name() {
@@ -145,20 +233,20 @@ macro_rules! flag_harness {
             let ra = core::fmt::write(&mut a, format_args!($fmt, s));
             let rb = core::fmt::write(&mut b, format_args!($base, s));
             assert!(ra.is_ok() && rb.is_ok(), "formatting does not fail");
-            assert!(a.same(&b), concat!("format flags `", $fmt, "` produce the same bytes as `", $base, "`"));
+            assert!(a.same(&b), $msg);
         }
     };
 }
 
-flag_harness!(render_flags_width_right, "{:>10}", "{}", 2);
-flag_harness!(render_flags_fill_center, "{:*^7}", "{}", 4);
-flag_harness!(render_flags_precision, "{:<3.1}", "{}", 3);
-flag_harness!(render_flags_alt_width, "{:#>8}", "{:#}", 1);
-flag_harness!(render_flags_alt_precision, "{:#.2}", "{:#}", 2);
-flag_harness!(render_flags_alt_fill_plain, "{:-<#12}", "{:#}", 0);
+flag_harness!(render_flags_width_right, "{:>10}", "{}", 2, "width and right alignment never pad a rendered style");
+flag_harness!(render_flags_fill_center, "{:*^7}", "{}", 4, "fill and centre alignment never pad a rendered style");
+flag_harness!(render_flags_precision, "{:<3.1}", "{}", 3, "precision never truncates a rendered style");
+flag_harness!(render_flags_alt_width, "{:>#8}", "{:#}", 1, "width and alignment never pad the reset form");
+flag_harness!(render_flags_alt_precision, "{:#.2}", "{:#}", 2, "precision never truncates the reset form");
+flag_harness!(render_flags_alt_fill_plain, "{:-<#12}", "{:#}", 0, "fill never pads the (empty) reset form of a plain style");
 
 /// Reset renders a reset
-#[cfg_attr(kani, kani::proof, kani::unwind(10))]
+#[cfg_attr(kani, kani::proof, kani::unwind(16))]
 #[cfg_attr(not(kani), test)]
 fn render_reset_value() {
     let mut d: Buf<8> = Buf::new();
